@@ -56,3 +56,9 @@ package cashu
 //@   ensures @nodup !result ==> (forall i, j :: 0 <= i && i < j && j < len(proofs) ==> proofs[i].Secret != proofs[j].Secret)
 //@   ensures @dup result ==> (exists i, j :: 0 <= i && i < j && j < len(proofs) && proofs[i].Secret == proofs[j].Secret)
 //@   loop range(proofs) invariant 0 <= i && i <= len(proofs) && (forall j :: 0 <= j && j < i ==> (proofs[j].Secret in secrets) && secrets[proofs[j].Secret]) && (forall k Str :: (k in secrets) ==> (exists j :: 0 <= j && j < i && proofs[j].Secret == k)) && (forall a, b :: 0 <= a && a < b && b < i ==> proofs[a].Secret != proofs[b].Secret)
+
+//@ func BuildCashuError
+//@   tags C20 C06
+//@   safety C06
+//@   fresh
+//@   ensures @built result != nil && result.Detail == detail && result.Code == code
